@@ -17,6 +17,24 @@ CHECKS["C03"] = ("bounded symbolic execution of the real TemporalHypergraph meth
 CHECKS["C04"] = ("bounded symbolic execution of the real MultiplexHypergraph methods, aggregated_hypergraph and edge_overlap (CrossHair+z3) with symbolic per-layer weights",
     "Histories as C01 over records (node set, layer in {L0,L1}) including the weighted batch with one node set in two layers; aggregation and overlap compared with per-node-set sums of symbolic weights.",
     "z3, CrossHair builtin models, reference model; two layers; get_existing_layers compared leniently (DESIGN 3/C04)", "3 C04")
+CHECKS["C05"] = ("bounded symbolic execution of the real extraction methods and copy() (CrossHair+z3): recipes x symbolic weights/metadata, node-subset bits, orders/sizes lists, filter value and flags",
+    "Every extraction (induced, by orders/sizes, by order/size with up_to and isolated-node flags, largest component) is compared through the full C01/C02 observation battery with the extraction of the reference model, for all integer selections at once; source battery before = after; copy independence by mutation on both sides.",
+    "z3, CrossHair builtin models, reference model; 5 source recipes (DESIGN 3/C05)", "3 C05")
+CHECKS["C06"] = ("bounded symbolic execution of the real save/load/read_hif code with JSON, pickle, open (and for .hgr int) stand-ins; symbolic weights, metadata and attribute values; presence bits over .hgr contents",
+    "Round trip for 4 types x 2 formats with symbolic weights/metadata; .hgr reader on every sub-family of 6 hyperedges with symbolic weights and format Booleans; HIF reader on documents with symbolic attribute values. Counterexamples are replayed with real files.",
+    "json/pickle/open data-model stand-ins (validated against the real modules on every run); byte-level codec behaviour trusted (DESIGN 2.4, 3/C06)", "3 C06")
+CHECKS["C07"] = ("bounded symbolic execution of the real hash pre-image builders (expose_attributes_for_hashing x4, serialize) with JSON-model and injective-hash stand-ins; pairs of histories / single-element edits with shared symbolic weights and metadata",
+    "Digest equality is decided as equality of the canonical pre-image over symbolic leaves: equal for 5 alternative histories of the same content, different for 10-11 single-element edits, per container type, for all integer weights/metadata values; counterexamples replayed with real SHA-256.",
+    "SHA-256 collision freeness; json.dumps modelled by its data model (validated); one content per type (DESIGN 3/C07)", "3 C07")
+CHECKS["C08"] = ("bounded symbolic execution of degree.py, cc.py, visits.py on a symbolic hypergraph (one Boolean per candidate hyperedge) with a symbolic order/size filter (CrossHair+z3)",
+    "All 2^10 hypergraphs over the pairs/triples of 4 nodes (+ isolated node) x all integer filter values: degrees by counting, components by union-find, every wrapper consistent with the same filter; degrees of the other containers over 8 presence bits.",
+    "z3, CrossHair builtin models; candidate families stated in evidence (DESIGN 3/C08)", "3 C08")
+CHECKS["C10"] = ("bounded symbolic execution of projections.py, simplicial_complex.py, edge_similarity.py on a symbolic hypergraph (presence bits) with symbolic threshold s (Int>=1 / Real in (0,1]) and symbolic flags",
+    "Every sub-family of the candidate hyperedges x every threshold: bipartite/clique/line/directed-line graphs and the simplicial complex compared with their definitions entry by entry.",
+    "z3, CrossHair builtin models; networkx runs for real; floats modelled as reals (DESIGN 3/C10)", "3 C10")
+CHECKS["C12"] = ("bounded symbolic execution of measures/directed/* on a symbolic directed hypergraph (presence bits), solver-chosen bound max_hyperedge_size and symbolic degree filter",
+    "Every sub-family of the candidate directed hyperedges x every bound m: signature cells, the three reciprocities (definition, range, zero for empty sizes, exact<=strong<=weak) and role degrees compared with brute force.",
+    "z3, CrossHair builtin models; m is realised by numpy/range (enumerated by the solver) (DESIGN 3/C12)", "3 C12")
 NOT_YET = {}
 NA = {
  "C17": "HypergraphMT.fit / HySC.fit are in-place float numpy, LAPACK eig, sklearn KMeans and scipy.optimize on data-dependent masks with transcendental statements (EM ascent, log-likelihood agreement); nothing can be kept symbolic, so solver-based checking of the real code does not apply (DESIGN 3/C17).",
